@@ -96,7 +96,13 @@ class NewtonRaphsonGeometry(StandardGeometry, ABC):
             dz = intersections[:, 2] - z_surface
             intersections[~(np.abs(dz) < self.tol)] = np.nan
         position = np.column_stack((rays.x, rays.y, rays.z))
-        return np.linalg.norm(intersections - position, axis=1)
+        t = np.sum((intersections - position) * ray_directions, axis=1)
+
+        # intersections "behind" ray do not count, as for standard surfaces
+        with warnings.catch_warnings():
+            warnings.simplefilter('ignore')
+            t[t < 0] = np.nan
+        return t
 
     def _intersection_sphere(self, rays):
         """
